@@ -10,10 +10,12 @@ func init() {
 	vHarnesses["H_C14_numeric"] = H_C14_numeric
 	vHarnesses["H_C14_bool"] = H_C14_bool
 	vHarnesses["H_C14_boundary"] = H_C14_boundary
+	vHarnesses["H_C14_skiptag"] = H_C14_skiptag
 }
 
 type vCastOpts struct {
 	toInt, toFloat, toBool, nanInf, skip bool
+	skipTag                            string // when non-empty: skip exactly this tag
 }
 
 func vSetCastOpts(o vCastOpts) {
@@ -21,7 +23,10 @@ func vSetCastOpts(o vCastOpts) {
 	CastValuesToFloat(o.toFloat)
 	CastValuesToBool(o.toBool)
 	CastNanInf(o.nanInf)
-	if o.skip {
+	if o.skipTag != "" {
+		tag := o.skipTag
+		SetCheckTagToSkipFunc(func(t string) bool { return t == tag })
+	} else if o.skip {
 		SetCheckTagToSkipFunc(func(string) bool { return true })
 	} else if vChoose(2) == 1 {
 		SetCheckTagToSkipFunc(func(string) bool { return false })
@@ -144,7 +149,12 @@ func vC14(text string, o vCastOpts) {
 	lc, okc := leaf(mc)
 	vAssert(okp && okf && okc, "cast: casting does not change the structure or keys of the Map")
 	vAssert(vSame(lp, leafText) && vSame(lf, leafText), "cast: without the cast flag every leaf is the identical string")
-	want, ambiguous := refCast(leafText, o)
+	ro := o
+	if o.skipTag != "" {
+		leafTag := []string{"k", "-a", "#text"}[pos]
+		ro.skip = leafTag == o.skipTag
+	}
+	want, ambiguous := refCast(leafText, ro)
 	if pos == 2 && leafText == "" {
 		return
 	}
@@ -216,4 +226,12 @@ func H_C14_boundary() {
 		text = "0" + vNondetString(1, 1, "xX") + vNondetString(1, 2, "1fFp")
 	}
 	vC14(text, vNondetCastOpts())
+}
+
+// the skip function is consulted with the key the leaf is stored under
+func H_C14_skiptag() {
+	text := []string{"1", "true", "x", "2.5"}[vChoose(4)]
+	o := vCastOpts{toInt: vNondetBool(), toFloat: true, toBool: true}
+	o.skipTag = []string{"k", "-a", "#text", "r"}[vChoose(4)]
+	vC14(text, o)
 }
